@@ -86,6 +86,11 @@ class C01(Suite):
             pairs.add((gen.strat(rng), gen.strat(rng)))
             pairs.add((rng.choice(fin), gen.strat(rng)))
         out = []
+        # one operand a boundary value of some width, the exact sum (difference) a limit
+        base_pool = [v for v in pool if v not in gen.DERIVED]
+        for a, b in gen.pool_complement_pairs(base_pool):
+            out.append("add %d %d" % (a, b)); out.append("addeq %d %d" % (a, b))
+            if finite(-b): out.append("sub %d %d" % (a, -b)); out.append("subeq %d %d" % (a, -b))
         for a, b in sorted(pairs):
             for f in ("add", "add_ool", "addeq", "add_fn"): out.append("%s %d %d" % (f, a, b))
             for f in ("sub", "sub_ool", "subeq", "sub_fn"): out.append("%s %d %d" % (f, a, b))
